@@ -164,7 +164,9 @@ pub fn run(env: &mut Env) -> Outcome {
         let _ = read_res; // Ok / Err of read is not constrained by the statement
         s.world.pump();
         // what did the client emit in reaction?
-        let emitted: Vec<String> = s.world.server.borrow().history[hist_before..].iter().map(|(_, _, m)| m.name()).collect();
+        let emitted: Vec<String> = s.world.server.borrow().history[hist_before..].iter()
+            .filter(|(_, _, m)| !matches!(m, ClientMsg::Share { pdu: SharePdu::Data { pdu, .. }, .. } if pdu.is_unrelated_legal()))
+            .map(|(_, _, m)| m.name()).collect();
         let finalization = ["confirm-active", "synchronize", "control(4)", "control(1)", "font-list"];
         let emitted_final = emitted.iter().map(|e| e.as_str()).eq(finalization.iter().cloned());
         if !emitted.is_empty() && !emitted_final {
